@@ -64,7 +64,7 @@ def handler_cls(e):
 
 
 # messages carry text that means something to str.format / %-formatting / JSON: replaying must preserve it literally
-MSG_TAILS = ["", " {k} {0}", " 100% }{", ' {"id": 1, "tags": ["a"]}']
+MSG_TAILS = ["", " {k} {0}", " 100% }{", ' {"id": 1, "tags": ["a"]}', " r\udce9sum\udce9.csv \u00e9\u20ac"]   # (4: lone surrogates, as os.fsdecode makes them)
 
 
 def msg_text(msg):
@@ -77,7 +77,10 @@ def msg_of(e):
         return 0
     n = int(m.group(1))
     # the text after the marker must be the original one (a replayed exception may append its stack-trace note)
-    if not str(e)[m.end():].startswith(MSG_TAILS[n % len(MSG_TAILS)]):
+    tail = MSG_TAILS[n % len(MSG_TAILS)]
+    rest = str(e)[m.end():]
+    # (an exception with several arguments prints the repr of its argument tuple: the text appears in its escaped form)
+    if not (rest.startswith(tail) or rest.startswith(repr(tail)[1:-1])):
         return 990000 + n
     return n
 
